@@ -488,6 +488,31 @@ def opWStream (j : Json) : R Json := do
     ("parseErr", perrJson e), ("delivered", Json.arr delivered.toArray),
     ("types", jStrs w.types), ("sources", jStrs w.sources)])
 
+def ratOf (j : Json) : R Rat := do
+  match ← arr j with
+  | [n, d] => match (← str n).toInt?, (← str d).toNat? with
+    | some a, some b => pure (mkRat a b)
+    | _, _ => throw "bad rational"
+  | _ => throw "rational = [num, den]"
+
+def ratJson (q : Rat) : Json := Json.arr #[Json.str (toString q.num), Json.str (toString q.den)]
+
+open Edxml.Miner in
+def opMiner (j : Json) : R Json := do
+  let lists (k : String) : R (List (List Rat)) := do (← fldArr j k).mapM fun l => do (← arr l).mapM ratOf
+  let noisy ← lists "noisy"
+  let taint ← lists "taint"
+  let urels ← (← fldArr j "rels").mapM fun r => do
+    pure ({ kind := ← fldStr r "kind", source := ← fldStr r "source", target := ← fldStr r "target",
+            sourceType := ← fldStr r "sourceType", targetType := ← fldStr r "targetType" } : URel)
+  let evs ← (← fldArr j "events").mapM event
+  let uni (k : String) : Json :=
+    let all := evs.flatMap (universalsOf urels k)
+    Json.arr (all.map fun (a, b, c, d) => jStrs [a, b, c, d]).toArray
+  pure (Json.mkObj [("noisy", Json.arr (noisy.map fun l => ratJson (noisyOr l)).toArray),
+    ("taint", Json.arr (taint.map fun l => ratJson (taintOf l)).toArray),
+    ("names", uni "name"), ("descriptions", uni "description"), ("containers", uni "container")])
+
 def dispatch (j : Json) : R Json := do
   match ← fldStr j "op" with
   | "ping" => pure (Json.mkObj [("pong", true)])
@@ -508,6 +533,7 @@ def dispatch (j : Json) : R Json := do
   | "xmlcycle" => opXmlCycle j
   | "xmlesc" => opXmlEsc j
   | "wstream" => opWStream j
+  | "miner" => opMiner j
   | x => throw s!"unknown op {x}"
 
 partial def loop (inp out : IO.FS.Stream) : IO Unit := do
